@@ -12,6 +12,7 @@ import (
 	"sync/atomic"
 	"testing"
 
+	env "metacontroller/pkg/verifenv"
 	sim "metacontroller/pkg/verifsim"
 )
 
@@ -190,7 +191,7 @@ func TestVerif_C09_CrashPoints(t *testing.T) {
 			sim.R().Inconclusive("C09", "c09-ref-"+cfg.key(), err.Error())
 			continue
 		}
-		modes := []string{"crash", "error500", "error-after-apply"}
+		modes := []string{"crash", "error500", "error-after-apply", "stale-revisions"}
 		for _, mode := range modes {
 			for kk := 1; kk <= k+1; kk++ {
 				c := c09Case{Cfg: cfg, Mode: mode, K: kk}
@@ -243,6 +244,8 @@ func runC09(t *testing.T, c c09Case, reference map[string]interface{}) string {
 	s := w.sim
 	cutHash := ""
 	crashes := 0
+	var revHeld int32
+	heldSyncs := 0
 	arm := func(k int) {
 		base := s.OpSeq()
 		fired := int32(0)
@@ -259,6 +262,15 @@ func runC09(t *testing.T, c c09Case, reference map[string]interface{}) string {
 					return &sim.Fault{Code: 500}
 				}
 				return nil
+			})
+		case "stale-revisions":
+			// from request k on the ControllerRevision watch delivers nothing for a few syncs: the
+			// controller keeps working from a revision cache that lags its own writes
+			s.SetGate(func(ri *sim.ReqInfo) {
+				if ri.OpSeq > 0 && int(ri.OpSeq-base) == k && atomic.CompareAndSwapInt32(&fired, 0, 1) {
+					s.HoldWatch(env.RevisionGVR, true)
+					atomic.StoreInt32(&revHeld, 1)
+				}
 			})
 		case "error-after-apply":
 			s.SetFault(func(ri *sim.ReqInfo) *sim.Fault {
@@ -304,6 +316,14 @@ func runC09(t *testing.T, c c09Case, reference map[string]interface{}) string {
 				continue
 			}
 			ro.healAll()
+			if atomic.LoadInt32(&revHeld) == 1 {
+				heldSyncs += len(srs)
+				if heldSyncs >= 3 || len(srs) == 0 {
+					s.HoldWatch(env.RevisionGVR, false)
+					atomic.StoreInt32(&revHeld, 2)
+					continue
+				}
+			}
 			if len(srs) == 0 {
 				if !w.quiesce() {
 					return false
@@ -323,6 +343,7 @@ func runC09(t *testing.T, c c09Case, reference map[string]interface{}) string {
 	}
 	s.SetGate(nil)
 	s.SetFault(nil)
+	s.HoldWatch(env.RevisionGVR, false)
 	if c.Mode != "crash" && c.Mode != "crash2" {
 		cutHash = sim.Hash([]interface{}{c.Mode, c.K, c.Cfg.key()})
 	}
